@@ -98,6 +98,12 @@ pub enum Expect {
     Accepted { ok: bool, requests: Vec<Cmd>, cleanup: bool },
 }
 
+thread_local! {
+    /// the terminal of the histories built on this thread issues only this many different receipt numbers (0: all
+    /// different) - see `Plan::receipt_cycle`
+    pub static RECEIPT_CYCLE: std::cell::Cell<u64> = const { std::cell::Cell::new(0) };
+}
+
 pub struct Built {
     pub scenario: Scenario,
     pub expects: Vec<Expect>,
@@ -115,6 +121,8 @@ pub fn build(cfg: &ClientCfg, steps: &[Step], cleanup_for: &dyn Fn(usize) -> Cle
     sc.sim_terminal_id = cfg.terminal_id.clone();
     let mut model = Model { open: BTreeMap::new(), max: cfg.max_tx };
     let mut next_receipt = 231u64;
+    let mut issued = 0u64;
+    sc.plan.receipt_cycle = RECEIPT_CYCLE.with(|c| c.get());
     let mut expects = vec![];
     let mut open_after = vec![];
     let mut cleanups = vec![];
@@ -179,6 +187,11 @@ pub fn build(cfg: &ClientCfg, steps: &[Step], cleanup_for: &dyn Fn(usize) -> Cle
                     if *out == BeginOut::Success {
                         model.open.insert(t.clone(), next_receipt);
                         next_receipt = if next_receipt >= 9999 { 1 } else { next_receipt + 1 };
+                        let cycle = RECEIPT_CYCLE.with(|c| c.get());
+                        if cycle > 0 {
+                            issued += 1;
+                            next_receipt = 231 + issued % cycle;
+                        }
                     }
                     Expect::Accepted { ok: *out == BeginOut::Success, requests: vec![Cmd::Reservation], cleanup: false }
                 }
@@ -548,13 +561,13 @@ pub fn run(ctx: &Ctx, id: &str) -> i32 {
     };
     let n_walks = ctx.by(4_000usize, 200_000usize);
     report.rule = if id == "C07" {
-        format!("call histories of begin/commit/cancel over tokens {{a,b,c}} (tokens introduced in this order: symmetry), model-guided bounded-exhaustive: every history of exactly {depth} calls with every terminal outcome (reservation: success / abort / missing receipt / abort after a status information that already carried a receipt number; reversal: completed / abort / abort B8 echoing the request's receipt number) branched where the model accepts the call, x transactions_max_num 0..3; then a probe suffix cancel(a), cancel(b), cancel(c); plus {n_walks} random walks to depth 40 with empty / 99-byte / non-ASCII tokens and max 0..4. Additionally: pairs of tokens that are equal after trimming white space / case folding (different tokens: both stay open), card reads interleaved with the transaction calls (the card's status information carrying an amount, a receipt number equal to an open transaction's, and a maximum pre-authorisation amount around the configured one: no effect on the tokens allowed), every abort code 0..255 for a reservation while another transaction is open, every abort code 0..255 x {{no receipt, own receipt echoed, FFFF, another receipt}} for commit and cancel with one and two open transactions, and a link fault (close/garbage/NACK/foreign/silence/reply-then-close) at every packet of the reservation exchange followed by commit/cancel (the token must map to the receipt of the reservation that completed). Oracle: sequential client model (D.3) for the result class, 'refused => no request and no connection', 'commit/cancel carry the receipt number the terminal issued for that token', and the hook snapshot of the client's map after every call. Non-trivial = history with at least one accepted call; distinct by hash of (history, max).")
+        format!("call histories of begin/commit/cancel over tokens {{a,b,c}} (tokens introduced in this order: symmetry), model-guided bounded-exhaustive: every history of exactly {depth} calls with every terminal outcome (reservation: success / abort / missing receipt / abort after a status information that already carried a receipt number; reversal: completed / abort / abort B8 echoing the request's receipt number) branched where the model accepts the call, x transactions_max_num 0..3; then a probe suffix cancel(a), cancel(b), cancel(c); plus {n_walks} random walks to depth 40 with empty / 99-byte / non-ASCII tokens and max 0..4. Additionally: pairs of tokens that are equal after trimming white space / case folding (different tokens: both stay open), card reads interleaved with the transaction calls (the card's status information carrying an amount, a receipt number equal to an open transaction's, and a maximum pre-authorisation amount around the configured one: no effect on the tokens allowed), every abort code 0..255 for a reservation while another transaction is open, every abort code 0..255 x {{no receipt, own receipt echoed, FFFF, another receipt}} for commit and cancel with one and two open transactions, and a link fault (close/garbage/NACK/foreign/silence/reply-then-close) at every packet of the reservation exchange followed by commit/cancel (the token must map to the receipt of the reservation that completed); every fifth history runs against a terminal whose receipt numbers repeat (one number for every reservation / two in turn), so that tokens open at the same time share a number. Oracle: sequential client model (D.3) for the result class, 'refused => no request and no connection', 'commit/cancel carry the receipt number the terminal issued for that token', and the hook snapshot of the client's map after every call. Non-trivial = history with at least one accepted call; distinct by hash of (history, max).")
     } else {
         format!("the C07 histories (exactly {depth} calls, max 1..3) and {n_walks} random walks, each run under a clean-up behaviour chosen per scenario: pending query reports {{no receipt field, FFFF, a dangling receipt}}, reversal of the dangling receipt {{completes, aborts}}, end-of-day {{completion, abort A0, every abort code 00..FF in turn, aborts (B8, A0, B4, ...) that also carry a receipt number}}, with intermediate/print packets inside the end-of-day exchange. Oracle (temporal checker over the request log per call): a commit/cancel the terminal completed that leaves no token open is followed by exactly PendingQuery -> PreAuthReversal(d) iff d reported -> EndOfDay(password); result Ok on completion/A0, error otherwise; with tokens remaining no PendingQuery/EndOfDay. Non-trivial = history containing at least one completed commit/cancel; distinct by hash of (history, max, clean-up behaviour).")
     };
     report.exhaustive = Some(true);
     report.assumptions = vec![
-        "transport is fault-free here (faults are C09's); the simulated terminal issues unique receipt numbers from a counter".into(),
+        "transport is fault-free here (faults are C09's); the simulated terminal issues receipt numbers from a counter (unique, except in the histories with repeating numbers)".into(),
         "Feig::new's own configure is part of every scenario (call 1) and must succeed".into(),
     ];
     let schema = Arc::new(refcodec::zvt_schema());
@@ -651,13 +664,27 @@ pub fn run(ctx: &Ctx, id: &str) -> i32 {
             if k % threads != shard {
                 continue;
             }
+            // every fifth history against a terminal whose receipt numbers repeat (one number for all / two in turn): tokens
+            // that are open at the same time then share a number, and still each call acts on its own token only
+            let cycle = if k / threads % 5 == 3 { 1 + (k / threads / 5 % 2) as u64 } else { 0 };
+            RECEIPT_CYCLE.with(|c| c.set(cycle));
+            if cycle > 0 {
+                r.count("histories_with_repeating_receipt_numbers", 1);
+            }
             run_one(r, &mut rng, *m, h.clone(), k);
+            RECEIPT_CYCLE.with(|c| c.set(0));
         }
         for w in 0..n_walks / threads {
             let len = 1 + rng.below(40) as usize;
             let steps = random_walk(&mut rng, len);
             let max_tx = rng.below(5) as usize;
+            let cycle = if w % 5 == 3 { 1 + (w / 5 % 2) as u64 } else { 0 };
+            RECEIPT_CYCLE.with(|c| c.set(cycle));
+            if cycle > 0 {
+                r.count("histories_with_repeating_receipt_numbers", 1);
+            }
             run_one(r, &mut rng, max_tx, steps, w);
+            RECEIPT_CYCLE.with(|c| c.set(0));
         }
         // every abort code x {no receipt, the request's own receipt, FFFF, another receipt} for commit and for cancel,
         // with one and with two transactions open: the token must be closed whatever the terminal says
